@@ -27,7 +27,7 @@ EXT = {
     'builtins.pow': 'scalar', 'builtins.open': 'scalar', 'builtins.any': 'scalar', 'builtins.all': 'scalar',
     'builtins.max': 'view', 'builtins.min': 'view', 'builtins.sum': 'fresh', 'builtins.sorted': 'hold',
     'builtins.list': 'hold', 'builtins.tuple': 'hold', 'builtins.dict': 'hold', 'builtins.set': 'hold',
-    'builtins.zip': 'hold', 'builtins.enumerate': 'hold', 'builtins.reversed': 'hold', 'builtins.iter': 'hold',
+    'builtins.frozenset': 'hold', 'builtins.zip': 'hold', 'builtins.enumerate': 'hold', 'builtins.reversed': 'hold', 'builtins.iter': 'hold',
     'builtins.next': 'view', 'builtins.getattr': 'view', 'builtins.map': 'callback:0', 'builtins.filter': 'callback:0',
     'builtins.ValueError': 'scalar', 'builtins.RuntimeError': 'scalar', 'builtins.TypeError': 'scalar',
     'builtins.IndexError': 'scalar', 'builtins.KeyError': 'scalar', 'builtins.NotImplementedError': 'scalar',
@@ -73,7 +73,8 @@ EXT = {
     'numpy.nan_to_num': 'fresh', 'numpy.isnan': 'fresh', 'numpy.isfinite': 'fresh', 'numpy.round': 'fresh',
     'numpy.linalg.lstsq': 'fresh', 'numpy.linalg.inv': 'fresh', 'numpy.linalg.solve': 'fresh',
     'numpy.linalg.norm': 'fresh', 'numpy.linalg.svd': 'fresh', 'numpy.linalg.pinv': 'fresh',
-    'numpy.random.default_rng': 'scalar',
+    'numpy.random.default_rng': 'scalar', 'numpy.random.randn': 'fresh', 'numpy.random.rand': 'fresh', 'numpy.random.random': 'fresh',
+    'numpy.random.seed': 'scalar',
     # ---- numpy: may return a view of (or the very same object as) an argument
     'numpy.asarray': 'view:0', 'numpy.asanyarray': 'view:0', 'numpy.ascontiguousarray': 'view:0',
     'numpy.atleast_1d': 'view', 'numpy.atleast_2d': 'view', 'numpy.atleast_3d': 'view',
